@@ -159,4 +159,46 @@ example : getEndpoints F (fun _ => some ⟨"e", none⟩)
     = .ok [⟨"10.0.0.1:80", 1⟩, ⟨"10.0.0.2:80", 3⟩] := by rfl
 example : getEndpoints F (fun _ => some ⟨"e", none⟩) (fun _ => some (some ⟨[[]]⟩)) "c" = .error .noEndpoints := by rfl
 
+/-! ## Non-interference and counting (added in the last session) -/
+
+/-- **only the routed cluster and its own load assignment matter**: two states of the cache that agree on the cluster
+and on the load assignment it names give the same answer, success or error alike — no other cluster's endpoints can leak
+into a resolution, whatever else the control plane has pushed -/
+theorem resolve_frame (getC getC' : String → Option Cluster) (getE getE' : String → Option (Option Endpoints))
+    (desc : String) (hc : getC desc = getC' desc)
+    (he : ∀ c, getC desc = some c → getE c.endpointName = getE' c.endpointName) :
+    resolve F getC getE desc = resolve F getC' getE' desc := by
+  unfold resolve getEndpoints
+  rw [← hc]
+  cases hd : getC desc with
+  | none => rfl
+  | some c =>
+    have := he c hd
+    simp only [this]
+
+/-- an inline load assignment shadows the named one completely -/
+theorem inline_shadows_named (getC : String → Option Cluster) (getE getE' : String → Option (Option Endpoints))
+    (desc : String) (c : Cluster) (e : Endpoints) (hc : getC desc = some c) (hi : c.inline = some e) :
+    getEndpoints F getC getE desc = getEndpoints F getC getE' desc := by
+  unfold getEndpoints
+  simp only [hc, hi]
+
+/-- nothing is dropped or duplicated: a success has as many instances as the localities have endpoints in total -/
+theorem instance_count (getC : String → Option Cluster) (getE : String → Option (Option Endpoints))
+    (desc : String) (is : List Endpoint) (h : getEndpoints F getC getE desc = .ok is) :
+    ∃ c e, getC desc = some c ∧ Chosen getE c e ∧ is.length = (e.localities.map List.length).sum := by
+  obtain ⟨c, e, hc, hch, rfl, _⟩ := (resolve_exact getC getE desc is).mp h
+  exact ⟨c, e, hc, hch, List.length_flatten⟩
+
+/-- every listed endpoint is returned, and every returned endpoint is listed (with its address and weight) -/
+theorem instance_mem (getC : String → Option Cluster) (getE : String → Option (Option Endpoints))
+    (desc : String) (is : List Endpoint) (h : getEndpoints F getC getE desc = .ok is) :
+    ∃ c e, getC desc = some c ∧ Chosen getE c e ∧ ∀ x, x ∈ is ↔ ∃ l ∈ e.localities, x ∈ l := by
+  obtain ⟨c, e, hc, hch, rfl, _⟩ := (resolve_exact getC getE desc is).mp h
+  exact ⟨c, e, hc, hch, fun x => List.mem_flatten⟩
+
+example : resolve F (fun d => if d = "c" then some ⟨"e", none⟩ else some ⟨"other", none⟩)
+      (fun n => if n = "e" then some (some ⟨[[⟨"10.0.0.1:80", 1⟩]]⟩) else some (some ⟨[[⟨"6.6.6.6:80", 1⟩]]⟩)) "c"
+    = .ok ⟨true, "c", [⟨"10.0.0.1:80", 1⟩]⟩ := by rfl
+
 end XdsVerif.Properties.C10
